@@ -142,6 +142,7 @@ macro_rules! contract_bytes {
                 let v: [u8; $l] = kani::any();
                 let rate = any_rate();
                 let out = CharacterMutator.mutate_bytes(v.to_vec(), &mut s, rate);
+                kani::cover!($l == 0 || out.is_some());
                 if $l == 0 {
                     assert!(out.is_none(), "character mutator is not applicable to the empty input");
                 }
@@ -152,7 +153,6 @@ macro_rules! contract_bytes {
                         if i < $l && r[i] != v[i] { changed += 1; }
                     });
                     assert!(changed <= 1, "character mutator changed more than one position");
-                    kani::cover!($l == 0 || changed == 1);
                     std::mem::forget(r);
                 }
             });
